@@ -12,6 +12,7 @@ static Profile profile_for(const std::string& mode) {
   else if (mode == "C06") { p.w_edge = 25; p.big_ok = false; }
   else if (mode == "C10") { p.w_heap = 16; p.p_heap_api = 60; p.w_tfree = 3; p.arenas = true; p.big_ok = false; }
   else if (mode == "C12") { p.w_visit = 12; p.w_fill = 12; p.w_holes = 10; p.stop_visits = true; p.w_tfree = 4; p.w_talloc = 2; p.big_ok = false; }
+  else if (mode == "C09") { p.w_talloc = 12; p.w_tfree = 6; p.w_collect = 6; p.w_visit = 6; p.w_heap = 2; p.big_ok = false; p.w_fill = 8; p.w_churn = 4; }
   else if (mode == "C13") { p.w_tick = 9; p.w_collect = 6; p.w_visit = 4; p.p_aligned = 25; p.p_zero = 30; p.w_realloc = 12; p.w_zchain = 4; p.stop_visits = true; }
   return p;
 }
@@ -50,6 +51,9 @@ struct HistHarness : eng::Harness {
     Case special; if (generate_special(mode, ch, idx, special)) return special;
     Profile pf = profile_for(mode); Gen g(ch, pf);
     if (mode == "C13") { gen_option_prefix(g, idx); g.pf.min_ops += (int)g.out.size(); g.pf.max_ops += (int)g.out.size(); }
+    if (mode == "C09") { g.out.push_back(Op("opt").s("name", "visit_abandoned").u("v", 1)); g.census_ok = true; g.subprocs = true;
+      if (ch.chance(1, 2)) g.out.push_back(Op("opt").s("name", "abandoned_reclaim_on_free").u("v", 1)); if (ch.chance(1, 3)) g.out.push_back(Op("opt").s("name", "disallow_arena_alloc").u("v", 1)); if (ch.chance(1, 4)) g.out.push_back(Op("opt").s("name", "max_segment_reclaim").u("v", 100));
+      g.out.push_back(Op("subproc").u("i", 0)); if (ch.chance(1, 3)) g.out.push_back(Op("subproc").u("i", 1)); g.pf.min_ops += 5; g.pf.max_ops += 5; }
     if ((mode == "C12" && ch.chance(1, 2)) || mode == "C13") { g.out.push_back(Op("opt").s("name", "visit_abandoned").u("v", 1)); g.census_ok = true; g.pf.min_ops++; g.pf.max_ops++; }
     Case c = g.history();
     return c;
